@@ -362,6 +362,12 @@ class Kernel:
                 await Function.waiter_sync()
                 self.global_ctx.set_auto_start(True)
                 self.global_ctx.start()
+                #
+                # repr() runs code of the object (its __repr__), which can fail like any
+                # other part of the cell
+                #
+                if result is not None:
+                    result = repr(result)
             except Exception as exc:
                 traceback_mesg = EvalExceptionFormatter(exc).format()
 
@@ -411,7 +417,7 @@ class Kernel:
             if result is not None:
                 content = {
                     "execution_count": self.execution_count,
-                    "data": {"text/plain": repr(result)},
+                    "data": {"text/plain": result},
                     "metadata": {},
                 }
                 await self.send(
